@@ -318,6 +318,12 @@ def parse_rvalue(t):
         return ('ref', False, parse_place(t, 14)[0])
     if t.startswith('&') and not t.startswith('&&'):
         return ('ref', False, parse_place(t, 1)[0])
+    if 'ReifyFnPointer' in t and t.endswith(')') and not t.startswith(('copy ', 'move ', 'const ', '&', '(')):
+        # `path::to::function as fn(..) -> .. (PointerCoercion(ReifyFnPointer(Safe), Implicit))`: a function item (or an enum
+        # variant / tuple-struct constructor) turned into a function pointer: the value is the function item
+        k = find_top(t, ' as ')
+        if k > 0:
+            return ('use', parse_operand('const ' + t[:k].strip()))
     if t.startswith(('copy ', 'move ', 'const ', 'no_retag ')):
         k = find_top(t, ' as ')
         if k >= 0 and t.endswith(')'):
